@@ -7,8 +7,10 @@ from mirsym.lib import PeekableV, VecIter
 # D = decimal digit, H = hex digit, O = octal digit, B = binary digit; everything else literal
 DEC_SHAPES = ['D', 'DD', 'DDD', 'D.D', 'DD.DD', '.D', '.DD', 'D_D', 'D_DD.D_D', 'D.DD_D', 'D.D_D_D', 'D DD.D D', 'DeD', 'DED', 'De+D', 'De-D',
               'D.DeD', 'D.DDe-D', '.DeD', 'D_D.D_De-D', 'DeeD', 'De-DD', 'DD.DDeD_D']
-RADIX_SHAPES = ['0xH', '0xHH', '0xH_H', '0x_HH', '0xHHH', '0oO', '0oOO', '0oO_O', '0bB', '0bBB', '0bB_BB', '0bBBBB']
-CLASS = {'D': (10, 10), 'H': (16, 16), 'O': (8, 8), 'B': (2, 2)}
+RADIX_SHAPES = ['0xH', '0xHH', '0xH_H', '0x_HH', '0xHHH', '0oO', '0oOO', '0oO_O', '0bB', '0bBB', '0bB_BB', '0bBBBB',
+                # full machine-word widths: T = leading digit from {7, 8, f}, N = hex digit restricted to 0-9 (one class: no fork per digit)
+                '0xT' + 'N' * 15, '0xT' + 'N' * 16, '0xT' + 'N' * 7, '0o1' + 'O' * 21, '0o7' + 'O' * 20, '0b1' + 'B' * 3 + '0' * 60, '0b' + '1' * 62 + 'BB']
+CLASS = {'D': (10, 10), 'H': (16, 16), 'O': (8, 8), 'B': (2, 2), 'N': (10, 10), 'T': (16, 16)}
 
 
 def sym_digit(ex, I, name, radix):
@@ -23,14 +25,14 @@ def sym_digit(ex, I, name, radix):
 class LiteralValue(Harness):
     props = ('C01', 'C04')
     entry_name = '<text_query::TokenIterator as Iterator>::next ; Number::from_parts | parse_radix'
-    loop_bound = 40
+    loop_bound = 90
     _concrete = None
 
     def __init__(self, shapes, name):
         self.shapes = shapes
         self.name = name
         self.describe = 'number literals of %d shapes (%s ...) with symbolic digits: lexer token then from_parts/parse_radix value vs positional notation' % (len(shapes), ', '.join(shapes[:6]))
-        self.bounds = ['literal shapes listed in the harness (<= 10 characters, digit separators _ and U+2009, fraction, exponent <= 2 digits, 0x/0o/0b)']
+        self.bounds = ['literal shapes listed in the harness (decimal <= 10 characters with separators _ and U+2009, fraction, exponent <= 2 digits; 0x/0o/0b up to 64 bits + 1 digit)']
         self.expect_classes = ['Result::Ok']
 
     def build(self, ex, I):
@@ -38,15 +40,23 @@ class LiteralValue(Harness):
         chars = []
         digs = []      # (position in shape, value expr)
         for i, ch in enumerate(shape):
-            if ch in CLASS:
+            if ch == 'T':
+                t = ['7', '8', 'f'][ex.choose(3, 'leading digit')]
+                chars.append(ord(t))
+                digs.append(z3.IntVal(int(t, 16)))
+                ctx_lead = t
+            elif ch in CLASS:
                 c, v = sym_digit(ex, I, 'c%d' % i, CLASS[ch][0])
                 chars.append(c)
                 digs.append(v)
+            elif ch.isdigit() and i >= 2 and shape[:2] in ('0x', '0o', '0b'):
+                chars.append(ord(ch))
+                digs.append(z3.IntVal(int(ch)))
             else:
                 chars.append(ord(ch))
                 digs.append(None)
         it = Struct('TokenIterator', [PeekableV(VecIter(chars))], 'text_query')
-        return [it], {'shape': shape, 'digs': digs, 'chars': chars}
+        return [it], {'shape': shape, 'digs': digs, 'chars': chars, 'text0': ''.join(chr(c) if is_conc(c) else '?' for c in chars)}
 
     def entry(self, ex, args, ctx):
         it = args[0]
@@ -141,11 +151,12 @@ class LiteralValue(Harness):
     def case(self, ctx, vals, label):
         c = Harness.case(self, ctx, vals, label)
         c['inputs']['shape'] = ctx['shape']
+        c['inputs']['text0'] = ctx['text0']
         return c
 
     def _text(self, inputs):
-        shape = inputs['shape']
-        return ''.join(chr(int(inputs['c%d' % i])) if ch in CLASS else ch for i, ch in enumerate(shape))
+        t0 = inputs['text0']
+        return ''.join(chr(int(inputs['c%d' % i])) if ch == '?' else ch for i, ch in enumerate(t0))
 
     def native(self, inputs, label):
         return [{'mode': 'query', 'text': self._text(inputs)}]
@@ -340,8 +351,8 @@ def gen_sequences(nleaves, ops, with_parens):
             continue
         if t.count('|') > 1:
             continue      # `a|b|c` is not covered by the manual (rink rejects it); outside
-        if 'mod' in t and ('/' in t[:t.index('mod')] or '|' in t[:t.index('mod')]) and '(' not in t:
-            continue      # remainder of a symbolic quotient: z3 does not decide it within the budget; outside (stated)
+        if 'mod' in t and ('/' in t or '|' in t):
+            continue      # remainder involving a symbolic quotient: z3 does not decide it within the budget; outside (stated)
 
         key = ' '.join(t)
         if key not in seen:
@@ -387,7 +398,7 @@ class Precedence(Harness):
                          'evaluator against an independent evaluation under the manual\'s precedence and associativity; operand values symbolic') % (
             len(seqs), nleaves, ', unary minus' if unary else '')
         self.bounds = ['expressions of %d operands; exponents after ^ are the literals 2 / 3; operands dimensionless' % nleaves,
-                       'excluded: chained `a|b|c`, and `mod` whose left operand is an unparenthesised quotient']
+                       'excluded: chained `a|b|c`, and sequences that combine `mod` with a division']
         self.expect_classes = ['Result::Ok']
 
     def build(self, ex, I):
